@@ -42,6 +42,14 @@ impl Vm {
                         self.ip,
                         self.acc.clone(),
                     ));
+                    // Abandon the failed evaluation: unwind to the machine state a
+                    // completed evaluation leaves behind, so that the frames of the
+                    // failed computation neither stay live nor show up in the stack
+                    // traces of later evaluations.
+                    *self.stack.get_sp_mut() = 0;
+                    self.stack.clear();
+                    self.bp = 0;
+                    self.ep = usize::MAX;
                     return Err(e);
                 }
             }
